@@ -63,9 +63,12 @@
    exactly one, carrying the owner's message, and exactly one SetSent is logged -- in both
    directions, with the ORIGINAL policies.  It rests on C02_stored_only_accepted (in any cut
    session nothing reaches the handler under a MID its policy does not accept, so what is
-   stored once is never stored again).  Not covered: entries the original policy defers
-   (they stay pending), and storage faults after the first session (next_cfg resets them). *)
-From Verif Require Import Base.Bytes B2F.Secure B2F.Side B2F.SideP B2F.CutP B2F.PairDefs B2F.PairHs B2F.PairP B2F.DeliverP B2F.ConvergeP B2F.ConvergeCutP B2F.ConvergeOnceP B2F.ConvergeManyP.
+   stored once is never stored again).  Storage faults may occur in ANY of the faulty sessions
+   (C02_many_sessions_faults, B2F/ConvergeFaultsP.v: each step of the history installs its own
+   failing stores; of the last pair only that nothing still pending fails); entries the
+   original policy defers are never reported sent nor handed over and are still in the owner's
+   outbox at the end (C02_deferred_stays_pending). *)
+From Verif Require Import Base.Bytes B2F.Secure B2F.Side B2F.SideP B2F.CutP B2F.PairDefs B2F.PairHs B2F.PairP B2F.DeliverP B2F.ConvergeP B2F.ConvergeCutP B2F.ConvergeOnceP B2F.ConvergeManyP B2F.ConvergeFaultsP.
 Open Scope N_scope.
 
 (* TWO-PARTY SAFETY *)
@@ -298,3 +301,36 @@ Print Assumptions C02_stored_only_accepted.
 (* a history of two different cuts and a complete session, its hypotheses checked by computation,
    and the theorem's conclusion for it *)
 Example C02_many_sessions_instance := (many_three_sessions_logs, many_three_sessions_history, many_three_sessions_delivered).
+
+(* storage faults in ANY faulty session: each step installs the failing stores of the next session *)
+Theorem C02_many_sessions_faults : forall (x y : side_cfg) l xn yn (in_x' in_y' : bytes),
+  c_master x = negb (c_master y) ->
+  hs_compat (if c_master x then x else y) (if c_master x then y else x) ->
+  side_sound x -> side_sound y ->
+  history_f x y l xn yn -> l <> [] ->
+  nofail xn yn -> nofail yn xn -> closed xn yn in_x' in_y' ->
+  let Lx := logs_x l ++ x_events (exchange xn in_x') in let Ly := logs_y l ++ x_events (exchange yn in_y') in
+  (forall p, In p (h_outbox (c_handler x)) -> policy_of (c_handler y) (o_mid p) = AAccept ->
+     filter (stored_ev (o_mid p)) Ly = [EvProcess (o_mid p) (pm_data p) true] /\
+     length (filter (sent_ev (o_mid p)) Lx) = 1%nat) /\
+  (forall p, In p (h_outbox (c_handler y)) -> policy_of (c_handler x) (o_mid p) = AAccept ->
+     filter (stored_ev (o_mid p)) Lx = [EvProcess (o_mid p) (pm_data p) true] /\
+     length (filter (sent_ev (o_mid p)) Ly) = 1%nat).
+Proof. exact convergence_many_f. Qed.
+Print Assumptions C02_many_sessions_faults.
+
+(* the complement: what the peer's original policy defers stays pending *)
+Theorem C02_deferred_stays_pending : forall (x y : side_cfg) l xn yn (in_x' in_y' : bytes),
+  c_master x = negb (c_master y) ->
+  hs_compat (if c_master x then x else y) (if c_master x then y else x) ->
+  side_sound x -> side_sound y ->
+  history_f x y l xn yn -> l <> [] ->
+  nofail xn yn -> nofail yn xn -> closed xn yn in_x' in_y' ->
+  forall p, In p (h_outbox (c_handler x)) -> policy_of (c_handler y) (o_mid p) = ADefer ->
+    filter (sent_ev (o_mid p)) (logs_x l ++ x_events (exchange xn in_x')) = [] /\
+    filter (proc (o_mid p)) (logs_y l ++ x_events (exchange yn in_y')) = [] /\
+    In p (h_outbox (c_handler xn)) /\
+    In p (h_outbox (c_handler (next_cfg xn (exchange xn in_x')))).
+Proof. exact deferred_stays_pending. Qed.
+Print Assumptions C02_deferred_stays_pending.
+Example C02_faults_instance := (faults_three_sessions_logs, faults_three_sessions_history, faults_three_sessions_delivered).
